@@ -161,15 +161,7 @@ func runHistory(c *Ctx, user string, items []Item) RunObs {
 		if i == len(items)-1 {
 			o.Before = e.Snapshot()
 		}
-		switch it.In.Kind {
-		case "msg":
-			o.Classes = append(o.Classes, e.applyMsg(it.In.Msg))
-		case "result":
-			o.Classes = append(o.Classes, e.applyResult(it.In.Result))
-		case "restart":
-			e.Restart()
-			o.Classes = append(o.Classes, "ok")
-		}
+		o.Classes = append(o.Classes, applyItem(e, it))
 	}
 	o.After = e.Snapshot()
 	return o
@@ -203,8 +195,17 @@ func applyItem(e *NodeEnv, it Item) string {
 	case "restart":
 		e.Restart()
 		return "ok"
+	case "crashmsg":
+		e.applyCrashMsg(it.In.Msg, it.In.CrashK)
+		return "ok"
 	}
 	return "ok"
+}
+
+func crashItem(it Item, k int) Item {
+	in := it.In
+	in.Kind, in.CrashK = "crashmsg", k
+	return Item{In: in, Line: strings.Replace(it.Line, " msg ", fmt.Sprintf(" crashmsg %d msg ", k), 1), Label: fmt.Sprintf("crash-%d", k)}
 }
 
 func newEnvDir(c *Ctx) string {
